@@ -72,6 +72,7 @@ type image struct {
 }
 
 type exec struct {
+	walArchive         string                                  // C15: every WAL segment ever written (the untruncated log)
 	cleaningTombstones bool                                    // inside DB.CleanTombstones (it removes rewritten blocks itself)
 	preReload          map[string]diskState                    // C09: directory state at the beginning of a block reload, per data dir
 	ever               map[string]map[int64][]tsdbmodel.Sample // every sample a committed transaction carried, per series and timestamp (C04)
@@ -221,6 +222,11 @@ func (e *exec) onEvent(name string, kv ...any) {
 		}
 		if strings.HasPrefix(ce.dest, e.root) {
 			e.evCompactEnd = append(e.evCompactEnd, ce)
+			if e.prop == "C07" && !e.failed {
+				e.mu.Unlock()
+				e.compactionCheck(ce)
+				e.mu.Lock()
+			}
 		}
 	case "compact.plan":
 		pe := planEvent{dir: kv[0].(string)}
@@ -272,6 +278,11 @@ func (e *exec) onIO(op, site, path string, n int) {
 	}
 	rel := path[len(e.dir)+1:]
 	e.res.Count("io:"+site, 1)
+	if e.prop == "C15" && op == "create" && site == "wlog.CreateSegment" && strings.HasPrefix(rel, "wal/") {
+		e.mu.Unlock()
+		e.archiveWAL()
+		e.mu.Lock()
+	}
 	if debugIO {
 		fmt.Printf("DBG   io op=%d %s %s %s n=%d collecting=%v hits=%d\n", e.opIdx, op, site, rel, n, e.collecting, e.hits)
 	}
@@ -1183,6 +1194,10 @@ func (e *exec) nonTrivial() bool {
 		return e.res.Counters["samples_deleted"] > 0 && e.compactions > 0 && e.restarts > 0
 	case "C52":
 		return e.res.Counters["counter_checks"] > 10 && e.restarts > 0
+	case "C15":
+		return e.res.Counters["wal_truncation_comparisons"] > 0
+	case "C07":
+		return e.res.Counters["compaction_unions_multi_source"] > 0
 	case "C09":
 		return e.res.Counters["reloads_with_removals"] > 0
 	case "C04":
